@@ -15,6 +15,10 @@ Theorem c11_prefix : C11_prefix.
 Proof. exact c11_prefix_proof. Qed.
 Print Assumptions c11_prefix.
 
+Theorem c11_bound : C11_bound.
+Proof. exact c11_bound_proof. Qed.
+Print Assumptions c11_bound.
+
 Theorem c11_silence : C11_silence.
 Proof. exact c11_silence_proof. Qed.
 Print Assumptions c11_silence.
